@@ -32,7 +32,7 @@ func init() {
 		Modes: []Mode{{Name: "server", Weight: 5}, {Name: "client", Weight: 4}},
 		Gen:   genC10, Run: runC10, Enum: enumC10,
 		QuickRuns: 5000, ThoroughRuns: 240000,
-		Rule: "plan = (transport of the raw peer, a sequence of 1..12 frames drawn from a grammar-aware hostile corpus (header mutations, attachment counts, placeholder numbers, truncated JSON, wrong frame kind, unknown acks, out-of-state packets) mixed with valid frames, network chunking/latency, stalls) from VERIF_SEED; " +
+		Rule: "[enumeration: besides panics, a complete packet - header plus the attachments it announces - must be answered with a packet or an error] plan = (transport of the raw peer, a sequence of 1..12 frames drawn from a grammar-aware hostile corpus (header mutations, attachment counts, placeholder numbers, truncated JSON, wrong frame kind, unknown acks, out-of-state packets) mixed with valid frames, network chunking/latency, stalls) from VERIF_SEED; " +
 			"non-trivial = at least one hostile frame reached the decoder of an established Socket.IO socket and the honest connection was probed afterwards; distinct = distinct frame sequence x history digest",
 		Assumptions: []string{
 			"a process death is attributed to the plan that was running (one plan at a time per worker process)",
